@@ -190,6 +190,9 @@ def run_hypothesis(col, name, strategy, body, max_examples, seed, shrink=True, r
                 try:
                     body(case)
                 except Violation as v:
+                    if v.key in col.known_open:      # listed finding: count it, the case ends here, the search goes on
+                        col.known_hits[v.key] = col.known_hits.get(v.key, 0) + 1
+                        return
                     if v.key in col.ignore_keys:
                         return
                     _last["v"] = v
